@@ -90,6 +90,12 @@ pub fn rule_spaces(_tier: Tier) -> Vec<CfgSpace> {
         Pkt::Bye { ssrcs: (0..counts[c[1] as usize]).map(|i| i as u32).collect(), reason: "r".repeat(rl_[c[2] as usize]), pad: c[0] as u8 }
     }));
 
+    // BYE reasons of multi-byte characters: the limit is 255 bytes, not 255 characters
+    v.push(CfgSpace::new("rules-bye-multibyte-reasons", super::gens::LONG_REASONS * 3, move |idx| {
+        let reason = super::gens::long_multibyte_text((idx % super::gens::LONG_REASONS) as usize);
+        Pkt::Bye { ssrcs: vec![1, 2], reason, pad: [0u8, 4, 6][(idx / super::gens::LONG_REASONS) as usize] }
+    }));
+
     // APP: padding x subtype x name x payload length 0..=9
     let subs: [u8; 6] = [0, 30, 31, 32, 33, 255];
     let r = Radix::new(&[256, 6, APP_RULE_NAMES.len() as u64, 10]);
